@@ -5,6 +5,7 @@ import Hv.Hdd
 import HvProofs.Hds
 import HvProofs.Overlay
 import HvProofs.Qcow2Stream
+import HvProofs.Resolve
 namespace Hv.C07
 open Hv Hv.Layers
 
@@ -291,5 +292,270 @@ example : Vhdx.ParentOK exDiff exParentContent := ⟨_, rfl, fun _ _ _ => rfl⟩
 example : exDiff.readSectors 4 0 4 = .ok [200, 201, 202, 203, 104, 105, 106, 107, 208, 209, 210, 211, 212, 213, 214, 215] := by
   decide
 example : Vhdx.iterPartialRuns [0xF0, 0x0F, 0xFF] 3 18 = .ok [(0, 1), (1, 8), (0, 4), (1, 5)] := by decide
+
+
+/-! ### from the stored names to the chain (`Hv/Resolve.lean`: directory tree, `PurePosixPath`, the per-format transcriptions) -/
+
+section resolution
+open Hv.Resolve
+
+/-- **vhdx_parent_resolution**: what `open_parent(dir, locator)` opens.  The candidates are, in the code's order,
+    `dir / relative_path` and `"/" + absolute_win32_path` (both with `\` → `/`; `volume_path` is not a candidate).
+    (1) `relative_path` is mandatory: without it the open fails even when the absolute path exists;
+    (2) with it, the path opened is the first candidate that exists;
+    (3) when no candidate exists, whatever path is chosen cannot be opened — no parent, no image. -/
+theorem vhdx_parent_resolution {α : Type} (fs : FS α) (dir : Path) (loc : List (Name × Name)) :
+    (dictGet loc kRel = none → vhdxParentPath fs dir loc = .error .index) ∧
+    (∀ pp, (dictGet loc kRel).isSome → (vhdxCandidates dir loc).find? fs.exists = some pp →
+      vhdxParentPath fs dir loc = .ok pp) ∧
+    (∀ pp, (vhdxCandidates dir loc).find? fs.exists = none → vhdxParentPath fs dir loc = .ok pp →
+      fs.open pp = .error .other) := by
+  refine ⟨?_, ?_, ?_⟩
+  · intro h; unfold vhdxParentPath; rw [h]
+  · intro pp hr hf; exact find_parentPath fs dir loc pp hr hf
+  · intro pp hn h; exact not_exists_open fs pp (parentPath_none fs dir loc pp hn h)
+
+/-- **vhdx_chain_resolution**: when `VHDX(path)` succeeds, the objects it built (the requested image first) are the chain
+    the names designate: each is `VHDX.__init__` of the file at its path with the next object as parent, each differencing
+    image is followed by the image at the first existing candidate of its own locator relative to its own directory,
+    the last one is not differencing; the parent links are in place (`Linked`). -/
+theorem vhdx_chain_resolution (fs : FS File) (fuel : Nat) (p : Path) (chain : List (Path × Vhdx.Vhdx))
+    (h : vhdxOpen fs fuel p = .ok chain) :
+    VhdxDesignates fs chain ∧ Vhdx.Linked (chain.map (·.2)) ∧ chain.head?.map (·.1) = some p :=
+  vhdxOpen_spec fs fuel p chain h
+
+/-- **missing_parent_errors** (VHDX): never a silent read without the parent — an opened image whose metadata says
+    `has_parent` has a parent object, the next element of the resolved chain -/
+theorem vhdx_missing_parent_errors (fs : FS File) (fuel : Nat) (p : Path) (q : Path × Vhdx.Vhdx)
+    (rest : List (Path × Vhdx.Vhdx)) (h : vhdxOpen fs fuel p = .ok (q :: rest)) (hp : q.2.hasParent = true) :
+    ∃ par rest', rest = par :: rest' ∧ q.2.parent = some par.2.reader :=
+  vhdxOpen_parent fs fuel p q rest h hp
+
+/-- … and when none of the candidates of a differencing image exists, `VHDX(path)` is an error -/
+theorem vhdx_no_candidate_errors (fs : FS File) (fuel : Nat) (p : Path) (fh : File) (v0 : Vhdx.Vhdx)
+    (loc : List (Name × Name)) (ho : fs.open p = .ok fh) (hv : Vhdx.open fh none = .ok v0) (hp : v0.hasParent = true)
+    (hl : decodeLocator v0.locator = some loc) (hn : (vhdxCandidates p.parent loc).find? fs.exists = none) :
+    ∃ e, vhdxOpen fs fuel p = .error e := by
+  cases hr : vhdxOpen fs fuel p with
+  | error e => exact ⟨e, rfl⟩
+  | ok chain =>
+    exfalso
+    obtain ⟨hd, _, hh⟩ := vhdxOpen_spec fs fuel p chain hr
+    match chain, hd, hh with
+    | [b], hd, hh =>
+      simp only [List.head?_cons, Option.map_some, Option.some.injEq] at hh
+      have h1 := hd.1
+      rw [hh, ho] at h1
+      have e : b.2.fh = fh := (Except.ok.inj h1).symm
+      have h2 := hd.2.1
+      rw [e, hv] at h2
+      have : b.2 = v0 := (Except.ok.inj h2).symm
+      have h3 := hd.2.2
+      rw [this, hp] at h3
+      cases h3
+    | v :: par :: rest, hd, hh =>
+      simp only [List.head?_cons, Option.map_some, Option.some.injEq] at hh
+      obtain ⟨h1, h2, _, ⟨loc', hl', _, hf⟩, _⟩ := hd
+      rw [hh, ho] at h1
+      have e : v.2.fh = fh := (Except.ok.inj h1).symm
+      rw [e] at h2
+      have hw := (open_withParent fh par.2.reader v0 hv).1
+      rw [hw] at h2
+      have ev : v.2 = withParent v0 par.2.reader := (Except.ok.inj h2).symm
+      have : v.2.locator = v0.locator := by rw [ev]; rfl
+      rw [this, hl] at hl'
+      cases hl'
+      rw [hh, hn] at hf
+      cases hf
+
+/-- **resolved_chain_reads_as_overlay** (VHDX): resolution followed by `vhdx_chain_reads_as_overlay`.  If `VHDX(path)`
+    succeeds on the directory tree `fs` and the resolved images pass the executable well-formedness check, then the
+    opened object reads, sector by sector, the overlay of the layers of exactly the files the names designate
+    (`VhdxDesignates`: first existing locator candidate at every level, relative to each image's own directory). -/
+theorem resolved_chain_reads_as_overlay (fs : FS File) (fuel : Nat) (p : Path) (chain : List (Path × Vhdx.Vhdx))
+    (h : vhdxOpen fs fuel p = .ok chain) (hwf : Vhdx.chainWfb (chain.map (·.2)) = true)
+    (v : Vhdx.Vhdx) (hv : (chain.map (·.2)).head? = some v) (sector count : Nat) (hin : sector + count ≤ v.nSectors) :
+    VhdxDesignates fs chain ∧
+    v.readSectors count sector count
+      = .ok (slice (overlay (Vhdx.chainLayers (chain.map (·.2)))) (sector * v.sectorSize) (count * v.sectorSize)) := by
+  obtain ⟨hd, hl, _⟩ := vhdxOpen_spec fs fuel p chain h
+  exact ⟨hd, vhdx_chain_reads_as_overlay _ (Vhdx.chainWfb_sound _ hwf hl) v hv sector count hin⟩
+
+/-- `VHDX.__init__` with a parent object differs from the parent-less parse only in the BAT layout -/
+theorem vhdx_open_with_parent (fh : File) (r : Vhdx.SectorReader) (v0 : Vhdx.Vhdx) (h : Vhdx.open fh none = .ok v0) :
+    Vhdx.open fh (some r) = .ok (withParent v0 r) := (open_withParent fh r v0 h).1
+
+/-- **hdd_chain_resolution**: `get_snapshot_chain(guid)` returns `chain` exactly when `chain` is the duplicate-free
+    ParentGUID path that starts at `guid` (requested GUID first, root shot last; `HDD.open` then opens the images in the
+    reverse order); such a path is unique; if there is none — a GUID on the walk is not a shot, or the walk comes back to a
+    GUID it has seen — the call is an error (KeyError / ValueError), never a shorter chain. -/
+theorem hdd_chain_resolution (shots : List (Nat × Nat)) (null g : Nat) :
+    (∀ chain, Hdd.snapshotChain shots null g = .ok chain ↔
+      chain.head? = some g ∧ IsPath shots null chain ∧ chain.Nodup) ∧
+    (∀ c₁ c₂, (c₁.head? = some g ∧ IsPath shots null c₁ ∧ c₁.Nodup) → (c₂.head? = some g ∧ IsPath shots null c₂ ∧ c₂.Nodup) →
+      c₁ = c₂) ∧
+    ((¬ ∃ chain, chain.head? = some g ∧ IsPath shots null chain ∧ chain.Nodup) →
+      Hdd.snapshotChain shots null g = .error .index ∨ Hdd.snapshotChain shots null g = .error .value) := by
+  refine ⟨snapshotChain_ok_iff shots null g, ?_, ?_⟩
+  · intro c₁ c₂ h₁ h₂
+    have e₁ := (snapshotChain_ok_iff shots null g c₁).mpr h₁
+    have e₂ := (snapshotChain_ok_iff shots null g c₂).mpr h₂
+    rw [e₁] at e₂
+    exact Except.ok.inj e₂
+  · intro hno
+    cases hr : Hdd.snapshotChain shots null g with
+    | ok chain => exact absurd ⟨chain, (snapshotChain_ok_iff shots null g chain).mp hr⟩ hno
+    | error e =>
+      rcases snapshotChain_err shots null g e hr with rfl | rfl
+      · exact Or.inl rfl
+      · exact Or.inr rfl
+
+/-- **hdd_image_resolution**: the path `_open_image(Path(file))` opens: a relative name is taken below the `.hdd`
+    directory; an absolute name that exists is itself; otherwise the first existing of
+    `root/name`, `root.parent/<dir of file>/name`, `root.parent.parent/<dir of dir>/<dir of file>/name`, else the last
+    of them (which then fails to open) -/
+theorem hdd_image_resolution {α : Type} (fs : FS α) (root : Path) (file : Name) :
+    hddImagePath fs root file =
+      if (Path.ofStr file).abs then
+        if fs.exists (Path.ofStr file) then Path.ofStr file
+        else ((hddCandidates root (Path.ofStr file)).find? fs.exists).getD
+          (((root.parent.parent.joinStr (Path.ofStr file).parent.parent.name).joinStr (Path.ofStr file).parent.name).joinStr
+            (Path.ofStr file).name)
+      else root.join (Path.ofStr file) :=
+  hddImagePath_spec fs root file
+
+/-- **missing_parent_errors** (Parallels): when `HDD(path).open(guid)` succeeds on the directory tree, the snapshot chain
+    resolved, and for every storage every GUID of the chain has an image whose file is a regular file at the path
+    `_open_image` designates — one absent layer anywhere refuses the whole open -/
+theorem hdd_missing_image_errors (fs : FS File) (p : Path) (parse : File → Except Err Meta.Descriptor)
+    (hs : Hds.Hds → HddOpen.Reader) (n t : Nat) (guid : Option Nat) (r : List (Meta.Storage × Option HddOpen.Reader))
+    (h : HddOpen.open (hddDir fs p parse hs) n t guid = .ok r) :
+    ∃ desc chain, (hddDir fs p parse hs).descriptor = some (.ok desc) ∧
+      Hdd.snapshotChain (desc.shots.map fun s => (s.guid, s.parent)) n
+        (match guid with | some g => g | none => match desc.topGuid with | some x => x | none => t) = .ok chain ∧
+      ∀ s ∈ desc.storages, ∀ g ∈ chain, ∃ image name,
+        HddOpen.findImage s g = .ok image ∧ image.file = some name ∧
+        fs.isFile (hddImagePath fs (hddRoot fs p) name.toList) = true := by
+  unfold HddOpen.open at h
+  split at h
+  · cases h
+  · rename_i desc hd
+    simp only at h
+    split at h
+    · cases h
+    · rename_i chain hc
+      refine ⟨desc, chain, ?_, hc, ?_⟩
+      · unfold HddOpen.init at hd
+        split at hd
+        · cases hd
+        · rename_i x hx; rw [hx, hd]
+      · intro s hs' g hg
+        obtain ⟨image, name, fh, h1, h2, h3⟩ := openStorages_files _ chain desc.storages r h s hs' g hg
+        exact ⟨image, name, h1, h2, open_isFile fs _ fh h3⟩
+
+/-- **qcow2_backing_resolution**: the library never turns the backing-file *name* of the header into a path.  The image
+    opens only if the caller passed a handle or the explicit opt-out when the header names a backing file; the handle used
+    for unallocated clusters is exactly the caller's (whatever file the name would designate), none after the opt-out, and
+    none (the argument is ignored) when the header names no backing file. -/
+theorem qcow2_backing_resolution (fh : File) (df : Option File) (bk : Option Qcow2.Reader) (allow : Bool)
+    (infl : Bytes → Nat → Except Err Bytes) (q : Qcow2.QCow2) (h : Qcow2.open fh df bk allow infl = .ok q) :
+    (q.backingName = none → q.backing = none) ∧
+    (q.backingName.isSome → allow = true → q.backing = none) ∧
+    (q.backingName.isSome → allow = false → bk.isSome ∧ q.backing = bk) :=
+  qcow2_open_backing fh df bk allow infl q h
+
+/-- VMDK: `open_parent(dir, hint)` opens the first of its two candidates (`dir/<name>`,
+    `dir.parent/<last directory of the hint>/<name>`, `\` → `/`) that exists, else the second (which then fails to open) -/
+theorem vmdk_parent_resolution {α : Type} (fs : FS α) (dir : Path) (hint : Name) :
+    vmdkParentPath fs dir hint = ((vmdkCandidates dir hint).find? fs.exists).getD
+      ((dir.parent.joinStr (rpartSlash (rpartSlash (winToPosix hint)).1).2).joinStr (rpartSlash (winToPosix hint)).2) := by
+  unfold vmdkParentPath vmdkCandidates
+  simp only
+  by_cases h1 : fs.exists (dir.joinStr (rpartSlash (winToPosix hint)).2) = true
+  · simp [h1]
+  · by_cases h2 : fs.exists ((dir.parent.joinStr (rpartSlash (rpartSlash (winToPosix hint)).1).2).joinStr
+        (rpartSlash (winToPosix hint)).2) = true
+    · simp [h1, h2]
+    · simp [h1, h2]
+
+
+/-! non-vacuity: a small directory tree
+      /vm/a/child.avhdx      (differencing)          /vm/a/base.vhdx   (a stale copy)
+      /vm/b/base.vhdx        (the real parent)       /vm/a/dir         (a directory)
+    and locators whose parent is reachable by the first key, only by the second key, by no key; names as `List Char` -/
+
+def n (s : List Char) : Name := s
+def exFS : FS Nat :=
+  { cwd := []
+    node := fun loc =>
+      if loc = [n ['v','m']] ∨ loc = [n ['v','m'], n ['a']] ∨ loc = [n ['v','m'], n ['b']] ∨ loc = [n ['v','m'], n ['a'], n ['d']] then some .dir
+      else if loc = [n ['v','m'], n ['a'], n ['c']] then some (.file 1)
+      else if loc = [n ['v','m'], n ['a'], n ['p']] then some (.file 2)       -- stale
+      else if loc = [n ['v','m'], n ['b'], n ['p']] then some (.file 3)       -- the real parent
+      else none }
+def exDir : Path := ⟨true, [['v','m'], ['a']]⟩
+
+-- `Path("/vm/a") / "..\\b\\p".replace("\\", "/")` and the kernel's walk through `..`
+example : vhdxRelPath exDir ['.','.','\\','b','\\','p'] = ⟨true, [['v','m'], ['a'], ['.','.'], ['b'], ['p']]⟩ := by decide
+example : exFS.open (vhdxRelPath exDir ['.','.','\\','b','\\','p']) = .ok 3 := by decide
+-- `..` through a directory that does not exist is refused although the path is lexically `/vm/b/p`
+example : exFS.exists (vhdxRelPath exDir ['x','\\','.','.','\\','.','.','\\','b','\\','p']) = false := by decide
+-- first key
+example : vhdxParentPath exFS exDir [(kRel, ['.','.','\\','b','\\','p'])] = .ok ⟨true, [['v','m'], ['a'], ['.','.'], ['b'], ['p']]⟩ := by
+  decide
+-- only the second key exists (the table order of the keys does not matter)
+example : vhdxParentPath exFS exDir [(kAbs, ['v','m','\\','b','\\','p']), (kRel, ['.','\\','g','o','n','e'])]
+    = .ok ⟨true, [['v','m'], ['b'], ['p']]⟩ := by decide
+-- a drive letter never resolves: `/C:/vm/b/p`
+example : vhdxParentPath exFS exDir [(kRel, ['.','\\','g','o','n','e']), (kAbs, ['C',':','\\','v','m','\\','b','\\','p'])]
+    = .ok ⟨true, [['C',':'], ['v','m'], ['b'], ['p']]⟩ ∧
+    exFS.open ⟨true, [['C',':'], ['v','m'], ['b'], ['p']]⟩ = .error .other := by decide
+-- a stale first key pointing at an existing file wins over the right absolute path: no linkage check (observation O-C07-1)
+example : vhdxParentPath exFS exDir [(kRel, ['.','\\','p']), (kAbs, ['v','m','\\','b','\\','p'])]
+    = .ok ⟨true, [['v','m'], ['a'], ['p']]⟩ := by decide
+-- … and a first key naming a directory is chosen too (opening it then fails; the absolute path is not tried)
+example : vhdxParentPath exFS exDir [(kRel, ['.','\\','d']), (kAbs, ['v','m','\\','b','\\','p'])] = .ok ⟨true, [['v','m'], ['a'], ['d']]⟩ ∧
+    exFS.open ⟨true, [['v','m'], ['a'], ['d']]⟩ = .error .other := by decide
+-- no `relative_path`: KeyError although the absolute path is right; `volume_path` is never a candidate
+example : vhdxParentPath exFS exDir [(kAbs, ['v','m','\\','b','\\','p'])] = .error .index := by decide
+example : vhdxCandidates exDir [(kVol, ['v','m','\\','b','\\','p']), (kRel, ['g'])] = [⟨true, [['v','m'], ['a'], ['g']]⟩] := by decide
+-- nothing exists: the chosen path cannot be opened
+example : (vhdxCandidates exDir [(kRel, ['g']), (kAbs, ['h'])]).find? exFS.exists = none ∧
+    vhdxParentPath exFS exDir [(kRel, ['g']), (kAbs, ['h'])] = .ok ⟨true, [['h']]⟩ ∧ exFS.open ⟨true, [['h']]⟩ = .error .other := by decide
+-- the whole walk on names (`vhdxWalk`: headers described instead of parsed): child → real parent through `..`; a cycle is an error
+def exTree : FS (Option (Option (List (Name × Name)))) :=
+  { cwd := []
+    node := fun loc =>
+      if loc = [n ['v','m']] ∨ loc = [n ['v','m'], n ['a']] ∨ loc = [n ['v','m'], n ['b']] then some .dir
+      else if loc = [n ['v','m'], n ['a'], n ['c']] then some (.file (some (some [(kRel, ['.','.','\\','b','\\','p'])])))
+      else if loc = [n ['v','m'], n ['a'], n ['s']] then some (.file (some (some [(kRel, ['.','\\','s'])])))
+      else if loc = [n ['v','m'], n ['b'], n ['p']] then some (.file (some none))
+      else none }
+example : vhdxWalk exTree 8 ⟨true, [['v','m'], ['a'], ['c']]⟩
+    = .ok [⟨true, [['v','m'], ['a'], ['c']]⟩, ⟨true, [['v','m'], ['a'], ['.','.'], ['b'], ['p']]⟩] := by decide
+example : vhdxWalk exTree 8 ⟨true, [['v','m'], ['a'], ['s']]⟩ = .error .other := by decide
+-- UTF-16-LE locator strings as they are in the file
+example : decodeLocator [([0x72, 0, 0x65, 0], [0x2E, 0, 0x5C, 0, 0x70, 0])] = some [(['r','e'], ['.','\\','p'])] := by decide
+example : decode16 [0x3D, 0xD8, 0x00, 0xDE] = some [Char.ofNat 0x1F600] ∧ decode16 [0x00, 0xDC] = none ∧ decode16 [0x41] = none := by decide
+
+-- Parallels: the path of the shot forest, and what is not one
+example : IsPath [(1, 2), (2, 3), (3, 0), (9, 2)] 0 [1, 2, 3] ∧ [1, 2, 3].Nodup ∧
+    Hdd.snapshotChain [(1, 2), (2, 3), (3, 0), (9, 2)] 0 1 = .ok [1, 2, 3] :=
+  ⟨⟨⟨(1, 2), by decide, by decide, rfl⟩, ⟨(2, 3), by decide, by decide, rfl⟩, (3, 0), by decide, rfl⟩, by decide, by decide⟩
+-- `_open_image`: an absolute name that has moved is found in a sibling `.hdd` directory (second candidate)
+def exHdd : FS Nat :=
+  { cwd := []
+    node := fun loc =>
+      if loc = [n ['p']] ∨ loc = [n ['p'], n ['x']] ∨ loc = [n ['p'], n ['y']] then some .dir
+      else if loc = [n ['p'], n ['y'], n ['i']] then some (.file 7)
+      else none }
+example : hddImagePath exHdd ⟨true, [['p'], ['x']]⟩ ['/','o','/','q','/','y','/','i'] = ⟨true, [['p'], ['y'], ['i']]⟩ := by decide
+example : hddImagePath exHdd ⟨true, [['p'], ['x']]⟩ ['.','.','/','y','/','i'] = ⟨true, [['p'], ['x'], ['.','.'], ['y'], ['i']]⟩ ∧
+    exHdd.open ⟨true, [['p'], ['x'], ['.','.'], ['y'], ['i']]⟩ = .ok 7 := by decide
+example : exHdd.open (hddImagePath exHdd ⟨true, [['p'], ['x']]⟩ ['/','o','/','q','/','z','/','i']) = .error .other := by decide
+-- VMDK: `C:\vms\y\i` from `/p/x`: `/p/x/i` is absent, `/p/y/i` is there
+example : vmdkParentPath exHdd ⟨true, [['p'], ['x']]⟩ ['C',':','\\','v','\\','y','\\','i'] = ⟨true, [['p'], ['y'], ['i']]⟩ := by decide
+
+end resolution
 
 end Hv.C07
